@@ -203,6 +203,10 @@ def gen_handle_old(mod):
         op, b(inner[0].value), b(ret.value))
 
 
+def ncls_for_offer(mod):
+    return P.find_class(mod, "Negotiation")
+
+
 def need(cond, msg):
     if not cond:
         raise U(msg)
@@ -373,6 +377,33 @@ Definition optZ_eqb (a b : option Z) : bool :=
          "eventually(self.connector.connectorNegotiationFailed, self, self.factory.location, reason)" in nf,
          "negotiationFailed no longer tells the connector")
 
+    # ---- the offer dict of a Negotiation: built per instance (fresh) or an alias of a shared object?
+    # initClient stores the last-connection record of ITS target in self.negotiationOffer and sendHello reads it one round
+    # trip later; with several outbound negotiations under way (two hints, or a second peer) a shared dict would make a hello
+    # carry the record written for another target (lib/ConvergeLayers.v, offers)
+    ini = P.find_def(mod, "Negotiation.__init__")
+    offs = [n for n in ast.walk(ini) if isinstance(n, ast.Assign) and any(un(t) == "self.negotiationOffer" for t in n.targets)]
+    need(len(offs) == 1 and len(offs[0].targets) == 1, "Negotiation.__init__: expected exactly one assignment to self.negotiationOffer")
+    v = offs[0].value
+    if isinstance(v, (ast.Dict, ast.DictComp)):
+        fresh = True
+    elif isinstance(v, ast.Call) and ((isinstance(v.func, ast.Name) and v.func.id == "dict" and not binds_name(mod, "dict")) or
+                                      (isinstance(v.func, ast.Attribute) and v.func.attr == "copy" and not v.args)):
+        fresh = True
+    elif isinstance(v, (ast.Name, ast.Attribute)):
+        fresh = False                      # an alias of an object that outlives the instance
+    else:
+        raise U("Negotiation.__init__: cannot tell whether self.negotiationOffer = %s is a fresh dict" % un(v)[:60])
+    for fn in ast.walk(ncls_for_offer(mod)):
+        if isinstance(fn, ast.FunctionDef) and fn.name != "__init__":
+            for n in ast.walk(fn):
+                if isinstance(n, ast.Assign) and any(un(t) == "self.negotiationOffer" for t in n.targets):
+                    raise U("Negotiation.%s rebinds self.negotiationOffer" % fn.name)
+    out.append("Definition offer_dict_fresh : bool := %s.   (* Negotiation.__init__ builds self.negotiationOffer per instance *)"
+               % ("true" if fresh else "false"))
+    need("hello = self.negotiationOffer.copy()" in sh, "sendHello no longer builds the hello from self.negotiationOffer")
+    need("self.negotiationOffer['last-connection'] = '%s %s' % slave_record" in ic, "initClient no longer stores last-connection in its offer")
+
     # ---- the server side's own negotiation timer (virtual time in the model: lib/Converge.v do_advance)
     ncls = P.find_class(mod, "Negotiation")
     nconsts = P.module_consts(mod, body=ncls.body)
@@ -520,14 +551,21 @@ Definition optZ_eqb (a b : option Z) : bool :=
          "Tub.startService: the loop over the queued getReference calls changed")
     loopvars = {e.id for e in qloops[0].target.elts} | {t.id for st in qloops[0].body if isinstance(st, ast.Assign)
                                                         for t in st.targets if isinstance(t, ast.Name)}
+    dname = qloops[0].target.elts[0].id          # the queued Deferred
+    late = set()
     for fn in ast.walk(qloops[0]):
         if isinstance(fn, (ast.Lambda, ast.FunctionDef)):
             bound = {a.arg for a in fn.args.args + fn.args.kwonlyargs} | ({fn.args.vararg.arg} if fn.args.vararg else set()) \
                 | ({fn.args.kwarg.arg} if fn.args.kwarg else set())
             body = fn.body if isinstance(fn.body, list) else [fn.body]
             free = {n.id for b in body for n in ast.walk(b) if isinstance(n, ast.Name) and isinstance(n.ctx, ast.Load)} - bound
-            need(not (free & loopvars), "Tub.startService: a callback created in the loop over the queued lookups reads the loop "
-                 "variable(s) %s late (free variable of a callable that runs in a later turn)" % sorted(free & loopvars))
+            late |= free & loopvars
+    # translated: does each relay deliver to the Deferred of ITS OWN iteration (bound per iteration), or -- read late, in a
+    # later turn -- to the one of the last iteration?  (lib/ConvergeLayers.v, prestart)
+    need(late <= {dname}, "Tub.startService: a callback created in the loop over the queued lookups reads the loop "
+         "variable(s) %s late (free variable of a callable that runs in a later turn)" % sorted(late - {dname}))
+    out.append("Definition relay_binds_own_deferred : bool := %s.   (* Tub.startService: the relay of a queued getReference is "
+               "bound to the Deferred of its own iteration *)" % ("false" if late else "true"))
     need("self.getReference" in un(qloops[0]) and ".callback(" in un(qloops[0]),
          "Tub.startService: queued lookups are no longer relayed through getReference to their Deferred")
     bdd = P.find_def(pm, "Tub.brokerDetached")
